@@ -46,6 +46,7 @@ cfgs["C20"] = {"functions": ["x/rvesting/types.validatePerBlockReward", "x/rvest
 cfgs["C15"] = {"functions": RV,
   "assumptions": ["SDK: gov runs a proposal handler once at submission (dry-run) and in EndBlock without recover; SetParamSet panics unless each field validator passes"]}
 cfgs["C16"] = {"functions": ["x/aggregate/keeper.(Keeper).OnRecvPacket", "x/aggregate.(IBCMiddleware).OnRecvPacket"]}
+cfgs["C18"] = {"functions": ["x/xibc/core/client/keeper.(Keeper).CreateClient", "x/xibc/core/client/keeper.(Keeper).UpgradeClient", "x/xibc/core/client/keeper.(Keeper).ToggleClient", "x/xibc/core/client/keeper.(Keeper).UpdateClient", "x/xibc/core/client/keeper.(Keeper).HandleCreateClient", "x/xibc/core/client/keeper.(Keeper).HandleUpgradeClient", "x/xibc/core/client/keeper.(Keeper).HandleToggleClient", "x/xibc/core/client/types.UnpackClientState", "x/xibc/core/client/types.UnpackConsensusState"], "impls": [{"iface": "x/xibc/exported.IFACE Header.GetHeight", "impl": "x/xibc/clients/tss-client/types.(Header).GetHeight"}, {"iface": "x/xibc/exported.IFACE Header.GetHeight", "impl": "x/xibc/clients/light-clients/tendermint/types.(Header).GetHeight"}, {"iface": "x/xibc/exported.IFACE Header.GetHeight", "impl": "x/xibc/clients/light-clients/bsc/types.(Header).GetHeight"}, {"iface": "x/xibc/exported.IFACE Header.GetHeight", "impl": "x/xibc/clients/light-clients/eth/types.(Header).GetHeight"}]}
 for k, v in cfgs.items():
     v["id"] = k
     # preserve hand-edited extra keys
